@@ -557,7 +557,13 @@ func join(toks []string, rng *lib.Rng) string {
 // Source renders the program as real zygomys source text.
 func (p *Program) Source(st Style) string {
 	r := &renderer{st: st}
-	for _, f := range p.Forms {
+	for i, f := range p.Forms {
+		// a text must not end in the bare symbol + or - (the reader then asks for more input:
+		// KNOWN_FINDINGS C13 sign-symbol-at-end); (begin +) has the same value
+		if i == len(p.Forms)-1 && f.K == KVar && (f.Name == "+" || f.Name == "-") {
+			Begin(f).render(r)
+			continue
+		}
 		f.render(r)
 	}
 	return join(r.toks, st.Rng)
